@@ -1,0 +1,55 @@
+//go:build verif
+// +build verif
+
+package poseidon
+
+import (
+	"crypto/sha256"
+	"encoding/binary"
+	"encoding/hex"
+
+	"github.com/iden3/go-iden3-crypto/v2/ff"
+)
+
+// VerifStateDigest fingerprints every package-level table (raw Montgomery
+// limbs) and the round-count slice, for the purity checks of /verif.
+func VerifStateDigest() string {
+	h := sha256.New()
+	var b [8]byte
+	w := func(e *ff.Element) {
+		for _, l := range e {
+			binary.LittleEndian.PutUint64(b[:], l)
+			h.Write(b[:]) //nolint:errcheck,gosec
+		}
+	}
+	for _, n := range NROUNDSP {
+		binary.LittleEndian.PutUint64(b[:], uint64(n))
+		h.Write(b[:]) //nolint:errcheck,gosec
+	}
+	for _, l := range c.c {
+		for _, e := range l {
+			w(e)
+		}
+	}
+	for _, l := range c.s {
+		for _, e := range l {
+			w(e)
+		}
+	}
+	for _, m := range c.m {
+		for _, l := range m {
+			for _, e := range l {
+				w(e)
+			}
+		}
+	}
+	for _, m := range c.p {
+		for _, l := range m {
+			for _, e := range l {
+				w(e)
+			}
+		}
+	}
+	h.Write(big5.Bytes()) //nolint:errcheck,gosec
+	return hex.EncodeToString(h.Sum(nil))
+}
